@@ -182,8 +182,8 @@ func c08(r *core.Run) {
 				continue
 			}
 			n++
-			rp := p.ProvAt(bo.Args[1], "", bo.Instr)
-			ap := p.ProvAt(bo.Args[2], "", bo.Instr)
+			rp := p.ResolveToEntry(p.ProvAt(bo.Args[1], "", bo.Instr), h.Fn)
+			ap := p.ResolveToEntry(p.ProvAt(bo.Args[2], "", bo.Instr), h.Fn)
 			ok1, ok2 := recipient(rp), amount(ap)
 			r.Check(ok1 && ok2, "C08/R3", key+":payout", p.InstrPos(bo.Instr),
 				fmt.Sprintf("recipient %s, amount %s", rtext, atext),
